@@ -72,6 +72,22 @@ def sf_lines(rng, tier):
                 continue
         lines.append('SF %d %d %d %d %s %s %s %s' % (isrec, xsz, recsize, nd, ' '.join(map(str, shape)),
                                                    ' '.join(map(str, st)), ' '.join(map(str, ct)), ' '.join(map(str, sd))))
+    # is_request_contiguous: every (start, count) inside every shape up to 3 dims x 3 (thorough 4), fixed and record
+    # variables, one or several record variables, plus zero-length requests
+    for nd in (1, 2, 3):
+        for shape in itertools.product(range(1, maxn + 1), repeat=nd):
+            if nd == 3 and tier != 'thorough' and max(shape) > 3:
+                continue
+            per = []
+            for n in shape:
+                per.append([(s0, c0) for s0 in range(n) for c0 in range(0, n - s0 + 1)])
+            combos = list(itertools.product(*per))
+            if len(combos) > 40:
+                combos = [combos[rng.below(len(combos))] for _ in range(40)]
+            for combo in combos:
+                for isrec, nrv in ((0, 0), (1, 1), (1, 2)):
+                    lines.append('RC %d %d %d %s %s %s' % (isrec, nrv, nd, ' '.join(map(str, shape)), ' '.join(str(x[0]) for x in combo),
+                                                          ' '.join(str(x[1]) for x in combo)))
     for _ in range(600 if tier == 'thorough' else 150):
         nd = rng.range(1, 5)
         shape = [rng.choice([1, 2, 3, 7, 100, 70000]) for _ in range(nd)]
@@ -151,6 +167,18 @@ def run_check(tier, seed):
                         nfail += 1
                 elif impl != model:
                     tie_diffs.append((line, impl, model))
+                distinct.add(line)
+            elif line.startswith('RC'):
+                m, really = lo[i].split()
+                impl = co[i].strip()
+                t = line.split()
+                zero = any(x == '0' for x in t[4 + 2 * int(t[3]):])
+                if impl == '1' and really == '0' and not zero:
+                    if V.failing_input('C01:is_request_contiguous', 'is_request_contiguous answers "contiguous" for a request whose elements are not one run in the file',
+                                       dict(line=line, impl=impl, model=m), tag='rc%d' % nfail):
+                        nfail += 1
+                elif impl != m:
+                    tie_diffs.append((line, impl, m))
                 distinct.add(line)
             else:
                 m, s = lo[i].split()
